@@ -88,7 +88,13 @@ void harness(void)
 	for (int32_t i = 0; i < 3; i++) {
 		if (i < nd_n) {
 			if (kind[i] == 0) {
-				POST(qb_list_empty(&its[i]->item.list), "after a successful delete no queued delivery refers to the deleted signal registration (its callback is never invoked again)");
+				/* the removed delivery may have been freed: look for it in the queue instead of touching it */
+				struct qb_list_head *it_;
+				int steps_ = 0, found_ = 0;
+				for (it_ = lev->job_head.next; it_ != &lev->job_head && steps_ < 4; it_ = it_->next, steps_++) {
+					if (it_ == &its[i]->item.list) { found_ = 1; }
+				}
+				POST(!found_, "after a successful delete no queued delivery refers to the deleted signal registration (its callback is never invoked again)");
 			} else {
 				POST(!qb_list_empty(&its[i]->item.list), "deleting a registration leaves every other queued item queued");
 			}
